@@ -210,6 +210,13 @@ def gen_match(rng):
         else:
             prs.append(gen_pose(rng, n_nodes, 2, R, p_nan, shape="free"))
     scores = [F(rng.randint(0, 8), 8) for _ in range(n_pr)]       # many ties
+    gen = rng.random() < 0.5                           # evaluate Oks.match_instances_gen (pscore list)
+    if rng.random() < 0.3:
+        # "arbitrary scores": predicted instances without a `score` attribute (the hasattr filter of
+        # match_instances shifts the indices) and NaN scores (sorted last by argsort(-scores))
+        gen = True
+        scores = [("noscore" if r < 0.35 else "nan" if r < 0.6 else s)
+                  for s, r in zip(scores, [rng.random() for _ in scores])]
     if rng.random() < 0.3:
         off = [F(rng.choice([-20000, -1000, -64, 512, 4096])) for _ in range(2)]
         gts, prs = shift_poses(gts, off), shift_poses(prs, off)
@@ -217,7 +224,7 @@ def gen_match(rng):
     sd = rng.choice([None, None, F(1, 8), F(1, 2), F(1)])
     sc = rng.choice([None, None, F(10), F(100)])
     return {"kind": "match", "n_nodes": n_nodes, "gts": gts, "prs": prs, "scores": scores,
-            "thr": thr, "sd": sd, "sc": sc}
+            "thr": thr, "sd": sd, "sc": sc, "gen": gen}
 
 FRAME_SHAPES = ["normal"] * 8 + ["empty_pr"] * 4 + ["empty_gt"] * 2 + ["both_empty"] * 2 + ["below"] * 4
 
@@ -349,6 +356,10 @@ def term(c, flags):
     if k == "area":
         return f"CArea {c['n_ed']} {cposes(c['ps'])}"
     if k == "match":
+        if c.get("gen") or any(isinstance(x, str) for x in c["scores"]):
+            ps = lambda x: "NoScore" if x == "noscore" else "NanScore" if x == "nan" else f"(Score {core.cq(x)})"
+            return (f"CMatchG {core.cbool(flags['F51'])} {len(c['gts'])} {core.clist(c['scores'], ps)} "
+                    f"{cmatrix(c['M'])} {core.cq(c['thr'])}")
         return (f"CMatch {core.cbool(flags['F51'])} {len(c['gts'])} {core.clist(c['scores'], core.cq)} "
                 f"{cmatrix(c['M'])} {core.cq(c['thr'])}")
     if k == "frames":
@@ -668,7 +679,9 @@ def is_greedy_run(C, rows, cols):
 def run_match(c, impl):
     np = impl.np
     gi = [Duck.Inst(impl.arr([g], c["n_nodes"], 2)[0]) for g in c["gts"]]
-    pi = [Duck.Inst(impl.arr([p], c["n_nodes"], 2)[0], float(s)) for p, s in zip(c["prs"], c["scores"])]
+    # "noscore": an instance without a `score` attribute; "nan": score NaN
+    fs = lambda x: None if x == "noscore" else float("nan") if x == "nan" else float(x)
+    pi = [Duck.Inst(impl.arr([p], c["n_nodes"], 2)[0], fs(s)) for p, s in zip(c["prs"], c["scores"])]
     kw = {"threshold": float(c["thr"])}
     if c["sd"] is not None:
         kw["stddev"] = float(c["sd"])
@@ -1003,6 +1016,15 @@ def check(run: core.Run) -> int:
             stats["oks_mid"] += sum(1 for v in vals if 0.01 < v < 0.99)
         if c["kind"] == "match" and out and out[0] == "ok":
             stats["match_pairs"] += len(out[1])
+            sp = [x for x in c["scores"] if isinstance(x, str)]
+            stats["match_frames_with_scoreless_instance"] = stats.get("match_frames_with_scoreless_instance", 0) + ("noscore" in sp)
+            stats["match_frames_with_nan_score"] = stats.get("match_frames_with_nan_score", 0) + ("nan" in sp)
+            stats["match_gen_model"] = stats.get("match_gen_model", 0) + bool(c.get("gen") or sp)
+            # observation (not a property clause): the hasattr filter hides the last instances of the frame
+            k = sum(1 for x in c["scores"] if x != "noscore")
+            if any(p >= k for _, p, _ in out[1]):
+                bad = bad or ("a prediction beyond the first k (k = number of scored instances) was matched: "
+                              "the harness's reading of the score filter is wrong", None)
         if c["kind"] == "frames":
             for f in c["frames"]:
                 stats["frame_" + f["shape"]] = stats.get("frame_" + f["shape"], 0) + 1
